@@ -43,6 +43,31 @@ func VHarness_C04_CompareRevIDs() {
 	}
 }
 
+// VHarness_C04_CompareLongDigests: revision ids pushed by clients may carry any digest text (including '-'): two ids
+// of the same generation compare equal only if they are the same id, and the order is the byte order of the digests.
+func VHarness_C04_CompareLongDigests() {
+	ctx := context.Background()
+	g := vNondetU8()
+	vAssume(g >= '1' && g <= '9')
+	mk := func() (string, [3]byte) {
+		var d [3]byte
+		for i := range d {
+			d[i] = vNondetU8()
+			vAssume(d[i] == '-' || (d[i] >= '0' && d[i] <= '9') || (d[i] >= 'a' && d[i] <= 'z'))
+		}
+		return string([]byte{g, '-', d[0], d[1], d[2]}), d
+	}
+	a, da := mk()
+	b, db := mk()
+	ab, ba := compareRevIDs(ctx, a, b), compareRevIDs(ctx, b, a)
+	vAssert(ab == -ba, "compareRevIDs antisymmetric on long digests")
+	vAssert((ab == 0) == (a == b), "two different revision ids never compare equal (the winner does not depend on iteration order)")
+	less := da[0] < db[0] || (da[0] == db[0] && (da[1] < db[1] || (da[1] == db[1] && da[2] < db[2])))
+	if a != b {
+		vAssert((ab < 0) == less, "equal generations are ordered by the whole digest")
+	}
+}
+
 // vhRevSet builds a symbolic set of n revisions with a legal ancestry (each parent precedes its child
 // in index order and has a lower generation; ids pairwise distinct).
 func vhRevSet(n int) []vhRev {
